@@ -346,6 +346,10 @@ func genRender(ctx *Ctx, emit func(any, string)) {
 	for _, l := range []*Node{{T: "int", I: -7}, {T: "int", Ty: 4, I: -9223372036854775808}, {T: "int", Ty: 4, I: 9223372036854775807},
 		{T: "int", Ty: 14, I: 9223372036854775807}, {T: "int", Ty: 1, I: -128}, {T: "float", Ty: 21, F: -0.5}, {T: "float", Ty: 20, F: 0.1}, {T: "bool", Bv: true}} {
 		emit(RenderInput{Tree: &Node{T: "stack", Kind: "OR", Enc: [][]string{{"<", ">"}}, Els: []*Node{l, leafOf("x")}}}, "exhaustive")
+		// three and four one-character schemes installed by ONE SetEncap call, several leaves
+		emit(RenderInput{Tree: &Node{T: "stack", Kind: "AND", Enc: [][]string{{"|"}, {"'"}, {"\""}}, Els: []*Node{l, leafOf("x"), leafOf("y")}}}, "exhaustive")
+		emit(RenderInput{Tree: &Node{T: "stack", Kind: "LIST", Enc: [][]string{{"|"}, {"'"}, {"\""}, {"`"}}, Els: []*Node{leafOf("x"), l,
+			{T: "cond", Kw: "k", Op: &OpDesc{Builtin: 1}, Enc: [][]string{{"<"}, {"'"}, {"~"}}, Ex: leafOf("v")}}}}, "exhaustive")
 		emit(RenderInput{Tree: &Node{T: "stack", Kind: "AND", Els: []*Node{{T: "cond", Kw: "n", Op: &OpDesc{Builtin: 6}, Ex: l}}}}, "exhaustive")
 	}
 	// random trees
